@@ -192,28 +192,29 @@ lsearchk_t::result_t lsearchk_morethuente_t::do_get(const solver_state_t& state0
             stage = 2;
         }
 
-        // Check if further progress can be made
-        if (brackt && (stp <= stmin || stp >= stmax))
-        {
-            return {true, stp};
-        }
-        if (brackt && (stmax - stmin) <= xtol * stmax)
-        {
-            return {true, stp};
-        }
-        if (stp >= stpmax() && f <= ftest && g <= gtest)
-        {
-            return {true, stp};
-        }
-        if (stp <= stpmin() && (f > ftest || g >= gtest))
+        // Check convergence
+        const auto converged = f <= ftest && std::fabs(g) <= gtol * (-ginit);
+        if (converged)
         {
             return {true, stp};
         }
 
-        // Check convergence
-        if (f <= ftest && std::fabs(g) <= gtol * (-ginit))
+        // Check if further progress can be made (if not, then the line-search fails as the current point is not acceptable)
+        if (brackt && (stp <= stmin || stp >= stmax))
         {
-            return {true, stp};
+            return {false, stp};
+        }
+        if (brackt && (stmax - stmin) <= xtol * stmax)
+        {
+            return {false, stp};
+        }
+        if (stp >= stpmax() && f <= ftest && g <= gtest)
+        {
+            return {false, stp};
+        }
+        if (stp <= stpmin() && (f > ftest || g >= gtest))
+        {
+            return {false, stp};
         }
 
         // Interpolate the next point to evaluate
